@@ -33,7 +33,7 @@ CLAIMED = {
    text="Stage 1 sweeps every single deletion / duplication / emptying of each element and attribute of 7 base messages (incl. the SOAP envelope and enveloped signatures) and of the metadata of 2 SPs; stage 2 samples random worlds (corrupted stored SP metadata, deviating / tampered / raw requests with up to 3 edits, torn bodies, failing writers) under storage faults, because a fault changes which fields are nil later. Any panic in a handler goroutine or in NewServiceProvider is a violation keyed by endpoint and enclosing function.",
    ref="§5 C09", note="Coverage-guided fuzzing of the decoders (named in the property's quantifier) is outside this technique family and not done; byte-level damage is sampled."),
  "C10": dict(level="fault_enumeration", tech="deterministic simulation with exhaustive single- and pair-fault injection at every storage call of every endpoint workload (with a concurrent bystander request), followed by seeded random fault schedules and a post-fault recovery phase",
-   text="Stage 1 enumerates completely, for a fixed catalogue (4 provider configurations × 12 workloads × 9 settings: no / callback / metadata bystander, warm-up by an earlier callback / metadata request, and callback / metadata bystander aligned with — or run through — its own call of the very operation the fault hits), every storage call × every fault kind the property names (error, as a single fault in five values: plain, context.Canceled, wrapped DeadlineExceeded, wrapped sql.ErrNoRows, io.ErrUnexpectedEOF; for the key getters nil record, key without certificate, certificate without key, empty certificate; unusable algorithm as configuration), singly and in all pairs; stage 2 samples random worlds and fault schedules. Each faulted request must end in HTTP 5xx or a non-Success SAML message without subject, attribute, signature or user marker, without panic and without later persistence; the bystander's reply must equal its fault-free reply and a request that met no failing call must not crash while another request's call fails; afterwards a recovery flow must succeed.",
+   text="Stage 1 enumerates completely, for a fixed catalogue (4 provider configurations × 13 workloads × 9 settings: no / callback / metadata bystander, warm-up by an earlier callback / metadata request, and callback / metadata bystander aligned with — or run through — its own call of the very operation the fault hits), every storage call × every fault kind the property names (error, as a single fault in five values: plain, context.Canceled, wrapped DeadlineExceeded, wrapped sql.ErrNoRows, io.ErrUnexpectedEOF; for the key getters nil record, key without certificate, certificate without key, empty certificate; unusable algorithm as configuration), singly and in all pairs; stage 2 samples random worlds and fault schedules. Each faulted request must end in HTTP 5xx or a non-Success SAML message without subject, attribute, signature or user marker, without panic and without later persistence; the bystander's reply must equal its fault-free reply and a request that met no failing call must not crash while another request's call fails; afterwards a recovery flow must succeed.",
    ref="§5 C10", note="The enumeration is complete for the catalogue only; arbitrary configurations are sampled. Trusts the simulator's fault injector and reply decoders."),
  "C11": dict(level="exploration", tech="deterministic simulation: per-run random provider configuration and request hosts; a simulated SP bootstraps itself from the metadata document served earlier in the same run (entityID, endpoint locations, signing certificate, WantAuthnRequestsSigned), addresses requests to the advertised locations and compares every later reply and the certificate endpoint with what was advertised, across key rotation",
    text="Seeded search over issuer modes (static with/without path and trailing slash, Host-, Forwarded- and custom-header-derived), endpoint configurations (default, custom path with/without leading slash, external URL), metadata path, WantAuthRequestsSigned values and request hosts. Agreement is checked between independently observed things: served entityID vs. Issuer of every protocol reply for the same host, advertised location vs. the handler that answers there, advertised certificate vs. certificate endpoint vs. key version in use, advertised WantAuthnRequestsSigned vs. whether unsigned conformant requests are refused.",
